@@ -66,6 +66,18 @@ class World:
         self.anomalies = []
         self.recording = True
         self.procs = {}           # uid -> FakeProc
+        self.blocked = {}         # thread name -> (FakeProc, timeout) while the thread sits in proc.wait()
+        self.sch = None
+
+    def block(self, proc, timeout):
+        name = self.me()
+        if self.sch is None or name not in THREADS or not self.recording:
+            return
+        self.blocked[name] = (proc, timeout)
+        try:
+            self.sch.park()
+        finally:
+            self.blocked.pop(name, None)
 
     def me(self):
         return threading.current_thread().name
@@ -225,8 +237,9 @@ class FakePid:
 
 
 class FakeProc:
-    def __init__(self, world, u, pid_fault):
+    def __init__(self, world, u, pid_fault, stubborn=False):
         self.w, self.u, self.pid_fault = world, u, pid_fault
+        self.stubborn = stubborn    # signals have no effect: the process ends only by the environment step X
         self.state = 'running'      # running | exited | killed
         self.code = None
         self._pid = FakePid(self)
@@ -251,10 +264,17 @@ class FakeProc:
         return rc
 
     def wait(self, timeout=None):
+        """subprocess.Popen.wait: blocks the calling thread while the process runs.  Under the line scheduler
+        the thread is parked as `blocked` and has no step until the process has exited (step X).  With a finite
+        timeout the wait expires iff the process still runs when the thread is scheduled the next time."""
+        if self.state == 'running':
+            self.w.block(self, timeout)
+            if self.state == 'running' and self.w.recording:
+                self.w.rec(EV_WAIT, self.u, 0)
+                import subprocess
+                raise subprocess.TimeoutExpired('fake process %d' % self.u, timeout)
         rc = self._rc()
         self.w.rec(EV_WAIT, self.u, 0 if rc is None else 1)
-        if rc is None:
-            self.w.anomalies.append('wait() on running process %d would block' % self.u)
         return rc
 
 
@@ -409,6 +429,7 @@ def build(rp, world, case):
     lm._log = mock.MagicMock()
     lm.name = 'FAKE'
     faults = {}
+    stub_flags = {}
 
     class RM:
         def find_launcher(self, task):
@@ -464,6 +485,7 @@ def build(rp, world, case):
         for td in b:
             u = td['uid']
             faults[u] = td.get('fault', 'none')
+            stub_flags[u] = bool(td.get('stubborn'))
             t = TaskD()
             dict.update(t, {
                 'uid': uid_s(u), 'type': 'task', 'state': rps.AGENT_EXECUTING_PENDING, 'origin': 'client',
@@ -476,9 +498,13 @@ def build(rp, world, case):
         inq.batches.append(things)
 
     # process world
+    import subprocess as _real_sp
+
     class FakeSP:
         STDOUT = -2
         PIPE = -1
+        TimeoutExpired = _real_sp.TimeoutExpired
+        SubprocessError = _real_sp.SubprocessError
 
         @staticmethod
         def Popen(args=None, **kw):
@@ -487,7 +513,7 @@ def build(rp, world, case):
                 world.rec(EV_SPAWN, u, 0)
                 raise OSError('injected: spawn failed')
             world.rec(EV_SPAWN, u, 1)
-            p = FakeProc(world, u, faults.get(u) == 'afterspawn')
+            p = FakeProc(world, u, faults.get(u) == 'afterspawn', stubborn=bool(stub_flags.get(u)))
             world.procs[u] = p
             return p
 
@@ -499,6 +525,9 @@ def build(rp, world, case):
         @staticmethod
         def killpg(pid, sig):
             p = pid.proc
+            if p.state == 'running' and p.stubborn:
+                world.rec(EV_KILL, p.u, 2)          # delivered, without effect
+                return
             if p.state == 'running':
                 world.rec(EV_KILL, p.u, 1)
                 p.state = 'killed'
@@ -542,6 +571,7 @@ def run_case(rp, case, max_lines=400, max_steps=600):
     world = World()
     ex, tasks, patches, codes, popen_mod = build(rp, world, case)
     sch = LineScheduler(codes, world)
+    world.sch = sch
     exits = {int(k): v for k, v in (case.get('exit_codes') or {}).items()}
     cancels = [list(m) for m in case.get('cancels', [])]
     nb = len(case['batches'])
@@ -571,9 +601,14 @@ def run_case(rp, case, max_lines=400, max_steps=600):
             """one step of thread `name`"""
             world.cur_ev, world.cur_em = [], []
             status = 'parked'
-            if name not in sch.done:
+            b = world.blocked.get(name)
+            if b is not None and b[0].state == 'running' and b[1] is None:
+                pass                    # the thread sits in proc.wait() of a running process: it has no step
+            elif name not in sch.done:
                 for _ in range(max_lines):
                     status = sch.line(name)
+                    if name in world.blocked:
+                        break           # the thread entered a blocking proc.wait()
                     marked = any(t == name and e[0] not in NON_MARKING for t, e in world.cur_ev) or \
                         any(t == name for t, e in world.cur_em)
                     if status != 'parked':
@@ -612,14 +647,22 @@ def run_case(rp, case, max_lines=400, max_steps=600):
         # completion: a fixed fair policy
         quiescent = False
         if case.get('complete', True):
+            def unblock(name):
+                """fairness: a process some thread waits for exits"""
+                b = world.blocked.get(name)
+                if b is not None and b[0].state == 'running':
+                    do_exit(b[0].u, exits.get(b[0].u, 0))
+
             def until_done(name):
                 while name not in sch.done and len(steps) < max_steps:
+                    unblock(name)
                     grant(name)
                 return name in sch.done
             ok = until_done('I') and until_done('C')
             if ok:
                 idle = 0
                 while idle < 2 and len(steps) < max_steps:
+                    unblock('T')
                     st = grant('T')
                     idle = idle + 1 if (st[1] == [[EV_LOCK, LOCK_TO, 0]] and not st[2]) else 0
                 ok = idle >= 2
@@ -634,6 +677,8 @@ def run_case(rp, case, max_lines=400, max_steps=600):
                         quiescent = True
                         break
                     prev_empty_drain = (st[1] == [[EV_WQ_EMPTY, 0, 0]] and not st[2])
+        wsnap = [[u, 'stubborn' if (world.procs[u].state == 'running' and world.procs[u].stubborn) else world.procs[u].state,
+                  world.procs[u]._rc()] for u in sorted(world.procs)]
     finally:
         world.recording = False
         ex._term.stop = True
@@ -654,7 +699,7 @@ def run_case(rp, case, max_lines=400, max_steps=600):
         'tasks': sorted(uid_i(k) for k in dict.keys(ex._tasks)),
         'procattr': sorted(u for u, t in tasks.items() if dict.__contains__(t, 'proc')),
         'clist': [uid_i(x) for x in list.__iter__(ex._cancel_list)],
-        'world': [[u, world.procs[u].state, world.procs[u]._rc()] for u in sorted(world.procs)],
+        'world': wsnap,
     }
     return {'steps': steps, 'sched': sched_run, 'quiescent': quiescent, 'final': final,
             'anomalies': world.anomalies[:5]}
@@ -677,8 +722,9 @@ CH_C = {'I': 'CI', 'C': 'CC', 'W': 'CW', 'T': 'CT'}
 
 # ------------------------------------------------------------------ literals
 def lit_scenario(case):
-    bs = L.lst([L.lst(['(mkTd %s %s %s)' % (L.Z(t['uid']), FAULT_C[t.get('fault', 'none')],
-                                            L.boolean(t.get('timeout', False))) for t in b])
+    bs = L.lst([L.lst(['(mkTd %s %s %s %s)' % (L.Z(t['uid']), FAULT_C[t.get('fault', 'none')],
+                                               L.boolean(t.get('timeout', False)), L.boolean(t.get('stubborn', False)))
+                        for t in b])
                 for b in case['batches']])
     cs = L.lst([L.zlist(m) for m in case.get('cancels', [])])
     return '(mkSc %s %s)' % (bs, cs)
@@ -710,7 +756,7 @@ def lit_obs(steps):
 
 
 def lit_pstate(st, rc):
-    return {'none': 'PNone', 'running': 'PRunning', 'killed': 'PKilled'}.get(st) or '(PExited %s)' % L.Z(rc)
+    return {'none': 'PNone', 'running': 'PRunning', 'stubborn': 'PStubborn', 'killed': 'PKilled'}.get(st) or '(PExited %s)' % L.Z(rc)
 
 
 def delivered(case):
@@ -733,7 +779,7 @@ def gen_scenario(rng, ntasks=None):
     tds = []
     for u in uids:
         f = 'none' if rng.random() < 0.7 else rng.choice(FAULTS[1:])
-        tds.append({'uid': u, 'fault': f, 'timeout': rng.random() < 0.3})
+        tds.append({'uid': u, 'fault': f, 'timeout': rng.random() < 0.3, 'stubborn': rng.random() < 0.3})
     # one or two batches
     if n > 1 and rng.random() < 0.4:
         k = rng.randint(1, n - 1)
